@@ -28,20 +28,20 @@ type Violation struct {
 
 // Report is what the harness hands to bin/check.
 type Report struct {
-	Property      string            `json:"property"`
-	Tier          string            `json:"tier"`
-	Seed          int64             `json:"seed"`
-	Evaluations   int               `json:"evaluations"`
-	Distinct      int               `json:"distinct_nontrivial"`
-	Rule          string            `json:"rule"`
-	Exhaustive    bool              `json:"exhaustive"`
-	Samples       []any             `json:"samples"`
-	Distribution  map[string]int    `json:"distribution"`
-	Violations    []Violation       `json:"violations"`
-	ViolationsCut int               `json:"violations_not_listed"`
-	Notes         []string          `json:"notes,omitempty"`
-	WallS         float64           `json:"wall_s"`
-	Extra         map[string]any    `json:"extra,omitempty"`
+	Property      string         `json:"property"`
+	Tier          string         `json:"tier"`
+	Seed          int64          `json:"seed"`
+	Evaluations   int            `json:"evaluations"`
+	Distinct      int            `json:"distinct_nontrivial"`
+	Rule          string         `json:"rule"`
+	Exhaustive    bool           `json:"exhaustive"`
+	Samples       []any          `json:"samples"`
+	Distribution  map[string]int `json:"distribution"`
+	Violations    []Violation    `json:"violations"`
+	ViolationsCut int            `json:"violations_not_listed"`
+	Notes         []string       `json:"notes,omitempty"`
+	WallS         float64        `json:"wall_s"`
+	Extra         map[string]any `json:"extra,omitempty"`
 	start         time.Time
 	seen          map[[16]byte]struct{}
 	sigCount      map[string]int
